@@ -853,6 +853,11 @@ fn dumb_rational_div_floor(a: &BigRational, b: &BigRational) -> BigRational {
     (a / b).floor()
 }
 
+// floored remainder, so that (a // b) * b + (a %% b) == a as for integers
+fn dumb_rational_mod_floor(a: &BigRational, b: &BigRational) -> BigRational {
+    a - b * (a / b).floor()
+}
+
 fn dumb_complex_div_floor(a: Complex64, b: Complex64) -> Complex64 {
     let c = a / b;
     Complex64::new(c.re.floor(), c.im.floor())
@@ -875,7 +880,7 @@ impl NNum {
             self,
             other,
             NInt::mod_floor,
-            Rem::rem,
+            dumb_rational_mod_floor,
             f64::rem_euclid,
             Rem::rem
         )
